@@ -8,7 +8,43 @@ V = os.path.dirname(os.path.dirname(os.path.abspath(__file__)))
 TECH = 'bounded symbolic execution of the real Python functions with z3 (SYMX proxies), native replay of models'
 
 # id -> (level text, level note, design ref, technique override)
+SEARCH_NOTE = ('thermal evaluation replaced by free symbolic (maxEFT, minEFT) per (candidate, height), deterministic; brentq replaced by its '
+               'contract (root within tolerance, Lipschitz 1 K/m); excess never exactly 0; distinct candidates have distinct excess; candidate '
+               'lists are concrete outputs of the real generators (near-square up to 32/64 fields, rectangle, bi-rectangle nested, bi-zoned, '
+               'polygon-constrained, RowWise with a grid stub); floats as reals; counterexamples replayed natively with the same stubs')
 CLAIMED = {
+    'C01': ('Bounded proof over all sign/magnitude patterns of the abstract temperatures, all height windows, caps and policies, for the '
+            'listed candidate lists: after find_design the (field, height) left in the GHE object has excess <= 1e-3 K unless an unmet escape '
+            'was taken. Covers every load/soil/pipe/fluid because each only selects one temperature table.', SEARCH_NOTE, '3/C01', None),
+    'C02': ('Same runs: final height within [min,max]; count <= max_boreholes; Search failed only when the user did not ask to continue and no '
+            'allowed candidate fits; continued runs return largest@max / smallest@min; any non-ValueError exception escaping is a violation '
+            '(found and fixed: RowWise TypeError).', SEARCH_NOTE, '3/C02', None),
+    'C05': ('Same runs: final height is a brentq root unless the sign does not change; count*H <= count_j*Hmax for every evaluated feasible j; '
+            'predecessor of the selection evaluated and failing; first feasible under monotone excess (all threshold positions up to 32/64 '
+            'fields).', SEARCH_NOTE, '3/C05', None),
+    'C06': ('Solver-decided for every month of the year x horizons {12,25,240} (thorough: 1..36 and 47..360) with the month table fully '
+            'symbolic, and for the whole pipeline from raw 8760-hour profiles with symbolic peak magnitudes and durations at catalogue '
+            'positions: per-month energy of the emitted sequence equals the month net load.',
+            'peak durations arbitrary in (0,48] (stub of perform_current_month_simulation); numpy replaced by an exact list facade; division '
+            'by quotient variables; one known finding (1 January same-day pulses with a duration > 26 h).', '3/C06', None),
+    'C07': ('Decidable part only: pulses present with the month peak magnitude, sign, length = duration, centred/abutting noon; no pulse and '
+            'degenerate duration where there is no load; single average segment outside the retention window; monthly peak/day equal the raw '
+            'profile; 48 h window indices for every peak day.',
+            'NOT claimed: that computed durations lie in (0,48] and satisfy the Cullin-Spitler equivalence (numerical g_sts, extrapolating '
+            'interp1d); the duration is an arbitrary value in (0,48] here.', '3/C07', None),
+    'C08': ('Axis starts at 0, has every month end (independent closed-form calendar), ends at the horizon, replicates year-1 values, and is '
+            'strictly increasing under the stated premise - for all symbolic monthly tables; calendar helpers for every month index 1..360.',
+            'as C06; single-year load files only', '3/C08', None),
+    'C09': ('Every returned temperature equals the documented superposition formula for symbolic loads/times/parameters (n up to 8 quick, 24 '
+            'thorough; the loop body is identical for every step), through GHE.simulate including unit factors; corollaries; hourly branch '
+            'axis/load consistency for every horizon 1..360 and three call histories.',
+            'g and ln uninterpreted; floats as reals; numpy replaced by exact list facade', '3/C09', None),
+    'C12': ('Same runs as C01 on the live object state the summary is built from (count, height tag of the stored temperatures, search-log '
+            'rows) + the real get_summary_object on a light design object with symbolic values.', SEARCH_NOTE, '3/C12', None),
+    'C16': ('For each concrete polygon (12 hand-made incl. the demo outline + 48 seeded lattice polygons quick; all 3-4 vertex lattice polygons '
+            'thorough) the classification is proved for every real test point and tolerance against an independent crossing-number oracle '
+            'with the opposite half-open convention.',
+            'sqrt abstracted (fresh non-negative real per term + per-edge detour lemma, slack 1e-12); polygon vertices concrete', '3/C16', None),
     'C19': ('Solver-decided for every hour index 0..8759 (month/day/hour labels against an independent z3 calendar) and '
             'for all real elapsed times up to 30 years (monotone, two-sided Lipschitz, exact value, integer month ends); '
             'row builders proved to echo symbolic loads/coordinates/g-rows. Bounded only by the stated ranges.',
